@@ -303,7 +303,7 @@ def inline_new_helpers(mod, pinned):
             still = [n for n in ast.walk(mod.tree) if (isinstance(n, ast.Name) and n.id == name) or (isinstance(n, ast.Attribute) and n.attr == name)]
             still = [n for n in still if not any(a is helper for a in _ancestors(n))]
             from .model import parent as _par
-            if not still and isinstance(_par(helper), ast.Module):
+            if not still and (isinstance(_par(helper), ast.Module) or not _used_elsewhere(mod, name)):
                 lst, i = _block_of(helper)
                 if lst is not None:
                     lst.pop(i)
@@ -312,6 +312,30 @@ def inline_new_helpers(mod, pinned):
         ast.fix_missing_locations(mod.tree)
         set_parents(mod.tree)
     return count
+
+
+def _used_elsewhere(mod, name):
+    """Is the identifier mentioned in another source file of the analysed package (a subclass may call an inherited helper)?"""
+    import os
+    import re
+    rx = re.compile(r"\b%s\b" % re.escape(name))
+    root = os.path.join(mod.repo.root, "insights")
+    for dp, dns, fns in os.walk(root):
+        dns[:] = [d for d in dns if d not in ("tests", "__pycache__")]
+        for f in fns:
+            if not f.endswith(".py"):
+                continue
+            path = os.path.join(dp, f)
+            rel = os.path.relpath(path, mod.repo.root)
+            if rel == mod.rel:
+                continue
+            try:
+                src = mod.repo.overlay[rel] if rel in mod.repo.overlay else open(path, encoding="utf-8", errors="replace").read()
+            except OSError:
+                continue
+            if rx.search(src):
+                return True
+    return False
 
 
 def _ancestors(n):
@@ -420,7 +444,15 @@ def propagate_new_temporaries(mod, pinned):
                     if isinstance(p_, ast.AugAssign) and p_.target is l:
                         return True
                     return False
-                if any(_mutated_through(l) for l in loads):
+                # (a plain reference - name / attribute / subscript chain - denotes the same object before and after, so it may be mutated through)
+                def _pure_ref(e):
+                    while isinstance(e, (ast.Attribute, ast.Subscript)):
+                        if isinstance(e, ast.Subscript) and not isinstance(e.slice, (ast.Constant, ast.Name)):
+                            return False
+                        e = e.value
+                    return isinstance(e, ast.Name)
+                pure = _pure_ref(rhs)
+                if not pure and any(_mutated_through(l) for l in loads):
                     continue
                 # several uses of a freshly built mutable object would become several objects
                 fresh = any(isinstance(x, (ast.Dict, ast.List, ast.Set, ast.ListComp, ast.SetComp, ast.DictComp, ast.GeneratorExp)) for x in ast.walk(rhs)) or \
@@ -428,17 +460,37 @@ def propagate_new_temporaries(mod, pinned):
                 if fresh and len(loads) > 1:
                     continue
                 # the objects the value is computed from must not be mutated between the definition and the last use
+                rhs_paths = set()
+                for x in ast.walk(rhs):
+                    if isinstance(x, (ast.Attribute, ast.Subscript, ast.Name)):
+                        try:
+                            rhs_paths.add(ast.unparse(x))
+                        except Exception:
+                            pass
+
+                def _related(t):
+                    """Does a write to path ``t`` change what the value denotes?"""
+                    for p_ in rhs_paths:
+                        if p_ == t or p_.startswith(t + ".") or p_.startswith(t + "["):
+                            return True          # the path itself (or a prefix of it) is rebound
+                        if not pure and (t.startswith(p_ + ".") or t.startswith(p_ + "[")):
+                            return True          # the object read is modified and the value is computed from it
+                    return False
+
                 def _mutates_input(n):
                     if isinstance(n, (ast.Subscript, ast.Attribute)) and isinstance(n.ctx, (ast.Store, ast.Del)):
-                        b = n
-                        while isinstance(b, (ast.Subscript, ast.Attribute)):
-                            b = b.value
-                        return isinstance(b, ast.Name) and b.id in inputs
+                        try:
+                            return _related(ast.unparse(n))
+                        except Exception:
+                            return True
                     if isinstance(n, ast.Call) and isinstance(n.func, ast.Attribute) and n.func.attr in MUTATING:
-                        b = n.func.value
-                        while isinstance(b, (ast.Subscript, ast.Attribute)):
-                            b = b.value
-                        return isinstance(b, ast.Name) and b.id in inputs
+                        if pure:
+                            return False
+                        try:
+                            t = ast.unparse(n.func.value)
+                        except Exception:
+                            return True
+                        return any(p_ == t or p_.startswith(t + ".") or p_.startswith(t + "[") or t.startswith(p_ + ".") or t.startswith(p_ + "[") for p_ in rhs_paths)
                     return False
                 if any(_mutates_input(n) for n in _own_stmt_nodes(fn) if hasattr(n, "lineno") and st.lineno < n.lineno < last and id(n) not in rhs_nodes):
                     continue
